@@ -189,6 +189,15 @@ def equivalences_of(M):
     for anchor, tlist in eq.items():
         for t in tlist:
             inv[int(t)] = int(anchor)
+    # the caller owns what a property hands out: emptying the returned dictionary (e.g. while filtering it) must not
+    # reach into the map
+    try:
+        for tlist in eq.values():
+            if isinstance(tlist, list):
+                del tlist[:]
+        eq.clear()
+    except (TypeError, AttributeError):
+        pass
     return inv
 
 
@@ -216,3 +225,15 @@ def prior_call(M, case, seed):
     mol = build_molecule(case["ref"], coords=other)
     lib("prior-call", M, mol)
     return True
+
+
+def disturb_construction(ref, tgt, seed, what):
+    """Changes the very objects a map was built from (after construction, possibly before its first use)."""
+    rng = np.random.default_rng(seed)
+    with env.quiet():
+        if what in ("tgt", "both"):
+            tgt.move(rng.uniform(-4, 4, 3))
+            tgt.rotate(gen.random_rotation(rng))
+        if what in ("ref", "both"):
+            ref.atoms_positions = np.array(ref.atoms_positions, float) @ gen.random_rotation(rng).T + rng.uniform(-4, 4, 3) \
+                + rng.normal(0, 0.05, (len(ref), 3))
